@@ -79,6 +79,7 @@ type Scn struct {
 	Phases   []Phase          `json:"phases,omitempty"`
 	Faults   []Fault          `json:"faults,omitempty"`
 	P        map[string]int64 `json:"params,omitempty"`
+	Data     json.RawMessage  `json:"data,omitempty"` // workload-specific structure (e.g. the C33 universe)
 	Expect   *Violation       `json:"expect,omitempty"`
 }
 
